@@ -18,7 +18,7 @@ def options(cfg, geo, eps):
           "matrix_epsilon": eps, "block_size": geo["block"], "merge": geo["merge"],
           "merge_block": geo["merge_limit"], "ptype": geo["ptype"],
           "exponent_override": geo["override"], "thr": 0.1, "diagonal_epsilon": geo.get("diag_eps", 1e-10),
-          "eigh": geo.get("eigh", False), "clip": (0.5 if cfg.get("clip") else None)}
+          "eigh": geo.get("eigh", False), "memred": geo.get("memred", False), "clip": (0.5 if cfg.get("clip") else None)}
 
 
 def rel(a, b):
@@ -115,8 +115,13 @@ def handle(job):
             ref = ref + cF * F_sym[i][s2]
         scale = max(np.abs(ref).max(), np.abs(u[f"p{i}"]).max(), 1e-30)
         d = float(np.abs(ref - np.asarray(u[f"p{i}"], np.float64)).max() / scale)
-        worst["update"] = max(worst["update"], d)
-        if not np.isfinite(d) or d > 2e-3:
+        # int8-quantized momentum buffers (best_effort_memory_usage_reduction): the closed form is exact
+        # arithmetic, the buffers are rounded to 1/254 of their column max every step (C11's bound), which
+        # accumulates to <= (1/254)/(1-beta1) of the buffer's max: compare at 3e-2 there
+        utol = 3e-2 if geo.get("memred") else 2e-3
+        worst["update_memred" if geo.get("memred") else "update"] = max(
+            worst.get("update_memred" if geo.get("memred") else "update", 0.0), d)
+        if not np.isfinite(d) or d > utol:
           mism.append({"clause": "update_differs_from_documented_form", "step": t, "param": i, "detail": d})
       # state leaves: statistics and stored roots
       if not cfg["skip"]:
